@@ -658,6 +658,23 @@ def run_case(case):
             raise Violation(f'C07: the build failed with {type(got).__name__} that does not stem from an UnsafeError: {str(got)[:700]}{src}')
     if ran_clean:
         labels.add('executed-clean')
+    # (c) unsafety goes with the node: an unsafe dynamic node of the merged tree put into a new, safe mapping through the node API
+    # ("merging can only spread unsafety, never remove it" - adoption by another parent is the same step a merge performs)
+    if tree is not None:
+        from awesomeyaml.nodes.dict import ConfigDict
+        from awesomeyaml.nodes.node import ConfigNode
+        dyn = ('CallNode', 'BindNode', 'EvalNode', 'FStrNode', 'ImportNode')
+        try:
+            cands = [(str(p_), n_) for p_, n_ in tree.ayns.nodes_with_paths() if isinstance(n_, ConfigNode) and type(n_).__name__ in dyn and n_.ayns.safe is False]
+        except Exception:     # noqa: a tree the low-level route has half evaluated
+            cands = []
+        for where, node in cands[:2]:
+            vfrec.reset()
+            st2, got2 = O.try_call(lambda: EvalContext(eval_symbols={'note': vfrec.note}).evaluate(ConfigDict({'name': 'x', 'adopted': node})))
+            labels.add('unsafe-node-adopted-by-a-new-mapping')
+            if st2 == 'ok' or not any(isinstance(x, UnsafeError) for x in O.exc_chain(got2)):
+                raise Violation(f'C07: the unsafe {type(node).__name__} at {where!r} of the merged tree, placed into a new mapping (ConfigDict({{..., "adopted": node}})), '
+                                f'was evaluated: {st2} {got2!r} (log {list(vfrec.LOG)!r}){src}')
     return Outcome(nontrivial=nontrivial, labels=sorted(labels))
 
 
